@@ -259,15 +259,16 @@ PHASE_ORDER = ["PROBING", "EXAMPLES", "COVERAGE", "FUZZING", "STATEFUL_TESTING"]
 RANK = {"SUCCESS": 0, "FAILURE": 1, "ERROR": 2, "INTERRUPTED": 3}
 
 
-def stream_wf(evs, interrupted: bool) -> str | None:
-    """None if the stream is well formed, else a description of the first defect."""
+def stream_defects(evs, interrupted: bool) -> list:
+    """All defects of the stream (empty if it is well formed): a defect in a listed region must not hide another one."""
+    defects: list = []
     kinds = [event_kind(e) for e in evs]
     if not kinds or kinds[0] != "EngineStarted":
-        return "first event is not EngineStarted"
+        return ["first event is not EngineStarted"]
     if kinds.count("EngineStarted") != 1:
-        return "more than one EngineStarted"
+        return ["more than one EngineStarted"]
     if kinds.count("EngineFinished") != 1 or kinds[-1] != "EngineFinished":
-        return "not exactly one EngineFinished, last"
+        return ["not exactly one EngineFinished, last"]
     open_phase = None
     phases_seen = []
     open_suites = {}
@@ -278,66 +279,72 @@ def stream_wf(evs, interrupted: bool) -> str | None:
         k = event_kind(e)
         if k == "PhaseStarted":
             if open_phase is not None:
-                return "phase opened inside a phase"
+                defects.append("phase opened inside a phase")
             open_phase = e.phase.name.name
             if open_phase in phases_seen:
-                return f"phase {open_phase} opened twice"
+                defects.append(f"phase {open_phase} opened twice")
             phases_seen.append(open_phase)
             worst[open_phase] = None
         elif k == "PhaseFinished":
             name = e.phase.name.name
             if open_phase != name:
-                return f"phase {name} closed without being open"
+                defects.append(f"phase {name} closed without being open")
             if open_suites:
-                return f"phase {name} closed with an open suite"
-            w = worst[name]
+                defects.append(f"phase {name} closed with an open suite")
+            w = worst.get(name)
             if w is not None and e.status.name in RANK and RANK[e.status.name] < RANK[w]:
-                return f"phase {name} status {e.status.name} better than its worst scenario {w}"
+                defects.append(f"phase {name} status {e.status.name} better than its worst scenario {w}")
             if w is not None and e.status.name == "SKIP":
-                return f"phase {name} reported SKIP although a scenario ended {w}"
+                defects.append(f"phase {name} reported SKIP although a scenario ended {w}")
             open_phase = None
         elif k == "SuiteStarted":
             if open_phase is None:
-                return "suite outside a phase"
+                defects.append("suite outside a phase")
             open_suites[e.id] = e
         elif k == "SuiteFinished":
             if e.id not in open_suites:
-                return "suite closed without being open"
+                defects.append("suite closed without being open")
             still = [s for s in open_scen.values() if s.suite_id == e.id]
             if still and not saw_interrupt:
-                return f"suite closed with {len(still)} announced scenario(s) never closed and no interruption"
+                defects.append(f"suite closed with {len(still)} announced scenario(s) never closed and no interruption")
             for s in still:
-                open_scen.pop(s.id)
-            open_suites.pop(e.id)
+                open_scen.pop(s.id, None)
+            open_suites.pop(e.id, None)
         elif k == "ScenarioStarted":
             if e.suite_id not in open_suites:
-                return "scenario outside a suite"
+                defects.append("scenario outside a suite")
             if e.id in open_scen:
-                return "scenario opened twice"
+                defects.append("scenario opened twice")
             open_scen[e.id] = e
         elif k == "ScenarioFinished":
             if e.id not in open_scen:
-                return "scenario closed without being open"
-            open_scen.pop(e.id)
+                defects.append("scenario closed without being open")
+            open_scen.pop(e.id, None)
             st = e.status.name
             if st in RANK and open_phase is not None:
-                w = worst[open_phase]
+                w = worst.get(open_phase)
                 if w is None or RANK[st] > RANK[w]:
                     worst[open_phase] = st
         elif k == "Interrupted":
             saw_interrupt = True
         elif k in ("EngineStarted", "EngineFinished"):
-            return f"{k} in the middle of the stream"
+            defects.append(f"{k} in the middle of the stream")
     if open_phase is not None:
-        return f"phase {open_phase} never closed"
+        defects.append(f"phase {open_phase} never closed")
     if open_suites:
-        return "suite never closed"
+        defects.append("suite never closed")
     order = [PHASE_ORDER.index(p) for p in phases_seen]
     if order != sorted(order):
-        return f"phases out of order: {phases_seen}"
+        defects.append(f"phases out of order: {phases_seen}")
     if not saw_interrupt and phases_seen != PHASE_ORDER:
-        return f"not every phase was opened: {phases_seen}"
-    return None
+        defects.append(f"not every phase was opened: {phases_seen}")
+    return defects
+
+
+def stream_wf(evs, interrupted: bool) -> str | None:
+    """None if the stream is well formed, else a description of the first defect."""
+    d = stream_defects(evs, interrupted)
+    return d[0] if d else None
 
 
 def race_search(chk: core.Check, n: int, judge) -> dict:
